@@ -50,6 +50,12 @@ CLAIMED = {
          "Necessary structural conditions of reconnect/back-off for all fault sequences; measured spacing and jitter distribution are not decided.",
          "Rules are anchored in the named functions of internal/core/dialer.go (ANCHOR-MISSING fails closed).",
          "DESIGN.md 4/C14"),
+ "C18": ("static analysis: dataflow of the timer channel feeding each API select (phi sources), option-name to field map extracted from SetOption, guard atoms, loop membership, per-arm return constants over SSA; anchored rules for REQ timers and fail-no-peers",
+         "For every blocking select of every SendMsg/RecvMsg the deadline case is fed only by the nil channel, the closed channel (send side, under the best-effort flag) or time.After(x) with x the field the matching deadline option stores, guarded by x > 0 and armed once per call (outside the wait loop); "
+         "the deadline arm returns the matching timeout constant; closedQ is closed in init and never reassigned; fail-no-peers tests precede the waits, the waits include the no-peer wake-up and RemovePipe raises it exactly when the last pipe leaves; REQ timers expire only the same request. "
+         "Structure of the waits for every option value and peer state; elapsed time (never early / never late), scheduler latency and select's random choice among ready cases are not decided.",
+         "Assumes time.After/AfterFunc and select semantics; nine RecvMsg implementations that re-armed the deadline on every queue resize were repaired (known_findings.json).",
+         "DESIGN.md 4/C18"),
 }
 
 NOT_YET = "check not built yet (work in progress; planned static rules in DESIGN.md section 4)"
